@@ -44,7 +44,7 @@ ASSUMPTIONS = [
     "(after the documented clean-up), or positionally under rename",
 ]
 
-ALPHABET = ["a.b", "a_b", "0", "1x", "if", "class", "r_if", "opset18", "alpha", "v1", "x"]
+ALPHABET = ["a.b", "a_b", "0", "1x", "if", "class", "r_if", "opset18", "alpha", "v1", "x", "alpha_0", "alpha_1"]
 OPTION_NAMES = ("rename", "use_operators", "inline_const", "skip_initializers")
 ALL_OPTS = [list(bits) for bits in itertools.product([0, 1], repeat=4)]
 RUN_TIMEOUT_S = 10.0   # a round-tripped while-loop may never terminate (seen: names colliding after clean-up)
@@ -759,6 +759,8 @@ def _driver(ch, tier):
             consts[slot] = [key, place]
     names = st["names"]
     reps = set(_representatives(names, None, QUICK_REPRESENTATIVES if tier == "quick" else THOROUGH_REPRESENTATIVES))
+    if base in _mods()[0].SCRIPTS and "allnames" in _mods()[0].SCRIPTS[base]["tags"]:
+        reps = set(names)      # small bases in which every value (also those bound inside subgraphs) is renamed
     ren = []
     taken = set(names)
     ndev = len(consts)
